@@ -16,6 +16,7 @@ import (
 	"unicode/utf8"
 
 	"cuelang.org/go/cue"
+	"cuelang.org/go/cue/ast"
 	"cuelang.org/go/cue/build"
 	"cuelang.org/go/cue/cuecontext"
 	"cuelang.org/go/cue/literal"
@@ -23,6 +24,7 @@ import (
 	"cuelang.org/go/cmd/cue/cmd"
 	"cuelang.org/go/internal/encoding"
 	"cuelang.org/go/internal/filetypes"
+	"golang.org/x/text/unicode/norm"
 
 	"context"
 )
@@ -101,6 +103,8 @@ func c10GoTree(doc []byte) (*jv, error) {
 
 type c10Feat struct {
 	rawBOM, loneSur, dupDiff, dupSame, outOfRange bool
+	keyNFC                                        bool // some member name is not in Unicode NFC
+	nfcExplains                                   bool // … and normalising the names explains the observed result
 	depth                                         int
 	nodes                                         int
 }
@@ -129,8 +133,11 @@ func c10Collapse(v *jv, f *c10Feat, depth int) *jv {
 		idx := map[string]int{}
 		for i, k := range v.keys {
 			e := c10Collapse(v.elems[i], f, depth+1)
+			if !norm.NFC.IsNormalString(k) {
+				f.keyNFC = true
+			}
 			if j, dup := idx[k]; dup {
-				if w.elems[j].String() != e.String() {
+				if w.elems[j].strict() != e.strict() {
 					f.dupDiff = true
 				} else {
 					f.dupSame = true
@@ -147,6 +154,38 @@ func c10Collapse(v *jv, f *c10Feat, depth int) *jv {
 	return v
 }
 
+// c10NFCKeys rewrites every member name to NFC (what CUE's compiler does to string labels) and
+// collapses again; conflict reports that two names became equal with different values.
+func c10NFCKeys(v *jv, all bool) (w *jv, conflict bool) {
+	var rec func(v *jv) *jv
+	rec = func(v *jv) *jv {
+		switch v.kind {
+		case 'a':
+			w := &jv{kind: 'a'}
+			for _, e := range v.elems {
+				w.elems = append(w.elems, rec(e))
+			}
+			return w
+		case 'o':
+			w := &jv{kind: 'o'}
+			for i, k := range v.keys {
+				// PatchExpr turns names that are valid identifiers into identifier labels, which
+				// the compiler does not normalise; names that stay string labels are normalised
+				if all || ast.StringLabelNeedsQuoting(k) {
+					k = norm.NFC.String(k)
+				}
+				w.keys = append(w.keys, k)
+				w.elems = append(w.elems, rec(v.elems[i]))
+			}
+			return w
+		}
+		return v
+	}
+	var f c10Feat
+	w = c10Collapse(rec(v), &f, 0)
+	return w, f.dupDiff
+}
+
 func c10Analyse(doc []byte) (want *jv, f c10Feat, err error) {
 	raw, err := c10GoTree(doc)
 	if err != nil {
@@ -158,29 +197,76 @@ func c10Analyse(doc []byte) (want *jv, f c10Feat, err error) {
 	return want, f, nil
 }
 
-// the narrow known-finding class a failing document falls into ("" = none)
-func (f c10Feat) class(doc []byte, still func(neutral []byte) bool) string {
+// classify gives the narrow known-finding class a failing document falls into ("" = none).
+// run(doc) re-evaluates the predicate on a variant: (passes, fails-but-explained-by-NFC).
+// Causes that can be neutralised are removed one at a time so that a second, unknown cause
+// is not hidden behind a known one.
+func (f c10Feat) classify(doc []byte, run func([]byte) (pass bool, nfc bool)) string {
+	cur := doc
+	first := ""
 	if f.rawBOM {
-		// the failure is attributed to the raw U+FEFF only if the same document with every raw
-		// U+FEFF written as the escape \ufeff passes
+		// the same document with every raw U+FEFF written as the escape \ufeff
 		neutral := append([]byte{}, doc[:1]...)
 		neutral = append(neutral, bytes.ReplaceAll(doc[1:], []byte("\xef\xbb\xbf"), []byte(`\ufeff`))...)
-		if still == nil || !still(neutral) {
+		if ok, _ := run(neutral); ok {
 			return "string-raw-bom"
 		}
+		cur, first = neutral, "string-raw-bom"
 	}
-	if f.outOfRange {
-		return "number-exponent-out-of-apd-range"
+	cls := ""
+	switch {
+	case f.outOfRange:
+		cls = "number-exponent-out-of-apd-range"
+	case f.dupDiff:
+		cls = "duplicate-key-differing-values"
+	case f.keyNFC:
+		if _, nfc := run(cur); nfc {
+			cls = "member-name-not-nfc"
+		}
 	}
-	if f.dupDiff {
-		return "duplicate-key-differing-values"
+	if cls == "" {
+		return ""
 	}
-	return ""
+	if first != "" {
+		return first
+	}
+	return cls
 }
 
+// class is classify for predicates that cannot be re-run on a variant
+func (f c10Feat) class(doc []byte, still func(neutral []byte) bool) string {
+	return f.classify(doc, func(dd []byte) (bool, bool) {
+		if still == nil {
+			return !bytes.Equal(dd, doc), f.nfcExplains
+		}
+		return !still(dd), f.nfcExplains
+	})
+}
+
+// htmlEscaped: some string of the JSON text spells <, > or & as a \u escape.
 func htmlEscaped(out []byte) bool {
-	lo := bytes.ToLower(out)
-	return bytes.Contains(lo, []byte(`\u003c`)) || bytes.Contains(lo, []byte(`\u003e`)) || bytes.Contains(lo, []byte(`\u0026`))
+	in := false
+	for i := 0; i < len(out); i++ {
+		ch := out[i]
+		if !in {
+			in = ch == '"'
+			continue
+		}
+		switch ch {
+		case '"':
+			in = false
+		case '\\':
+			if i+1 < len(out) && out[i+1] == 'u' {
+				if v, ok := c10Hex4(out, i+2); ok && (v == 0x3c || v == 0x3e || v == 0x26) {
+					return true
+				}
+				i += 5
+			} else {
+				i++
+			}
+		}
+	}
+	return false
 }
 
 // c10Same: out is valid JSON denoting exactly want (order of members included).
@@ -250,7 +336,10 @@ func c10CheckDoc(c *Cfg, ctx *cue.Context, doc []byte, origin string) bool {
 	ok, why, out := pass(doc)
 	cls := ""
 	if !ok {
-		cls = f.class(doc, func(neutral []byte) bool { ok2, _, _ := pass(neutral); return !ok2 })
+		cls = f.classify(doc, func(dd []byte) (bool, bool) {
+			ok2, _, _ := pass(dd)
+			return ok2, !ok2 && f.keyNFC && c10NFCExplains(ctx, dd)
+		})
 	}
 	c.Direct(ok, cls, fmt.Sprintf("[%s] valid JSON document does not decode to the same data: %s", origin, why), H(string(doc)))
 	if !ok {
@@ -278,6 +367,33 @@ func c10CheckDoc(c *Cfg, ctx *cue.Context, doc []byte, origin string) bool {
 	}
 	c.Direct(ok3, "", fmt.Sprintf("NewDecoder(...).Extract differs from Extract: %s vs %s (%s)", clip(string(sOut), 200), clip(string(out), 200), sErr), H(string(doc)))
 	return all
+}
+
+// c10NFCExplains: the decoder's result is exactly the ground truth with every member name
+// NFC-normalised (or a rejection because two names became equal with different values).
+func c10NFCExplains(ctx *cue.Context, doc []byte) bool {
+	d := c10Decode(ctx, doc, true)
+	return c10NFCExplainsOut(doc, d.ok, d.stage+": "+d.err, d.out)
+}
+
+func c10NFCExplainsOut(doc []byte, ok bool, errs string, out []byte) bool {
+	w, _, err := c10Analyse(doc)
+	if err != nil {
+		return false
+	}
+	for _, all := range []bool{false, true} {
+		w2, conflict := c10NFCKeys(w, all)
+		if !ok {
+			if conflict && strings.Contains(errs, "conflicting values") {
+				return true
+			}
+			continue
+		}
+		if same, _ := c10Same(out, w2); same {
+			return true
+		}
+	}
+	return false
 }
 
 func bucket(d int) int {
@@ -377,9 +493,9 @@ var c10FixedDocs = []string{
 }
 
 func c10Documents(c *Cfg, r *Rng) {
-	n := c.Pick(5000, 150000)
+	n := c.Pick(5000, 400000)
 	if c.Focus {
-		n = c.Pick(15000, 150000)
+		n = c.Pick(15000, 400000)
 	}
 	docs := make([][]byte, 0, n+len(c10FixedDocs))
 	orig := make([]string, 0, cap(docs))
@@ -450,7 +566,7 @@ func c10Documents(c *Cfg, r *Rng) {
 			var sb strings.Builder
 			g.render(&sb, v, rr.Intn(2))
 			p := []byte(sb.String())
-			if _, f, err := c10Analyse(p); err != nil || f.dupDiff || f.outOfRange || f.rawBOM || f.loneSur {
+			if _, f, err := c10Analyse(p); err != nil || f.dupDiff || f.outOfRange || f.rawBOM || f.loneSur || f.keyNFC {
 				clean = false
 			}
 			parts = append(parts, p)
@@ -491,9 +607,9 @@ func c10Rejects(ctx *cue.Context, doc []byte) (extract, stream, unmarshal bool, 
 }
 
 func c10Invalid(c *Cfg, r *Rng) {
-	n := c.Pick(6000, 200000)
+	n := c.Pick(6000, 500000)
 	if c.Focus {
-		n = c.Pick(20000, 200000)
+		n = c.Pick(20000, 500000)
 	}
 	var docs [][]byte
 	var orig []string
@@ -556,7 +672,7 @@ func c10Values(c *Cfg, r *Rng) {
 	if c.Focus {
 		return
 	}
-	n := c.Pick(4000, 100000)
+	n := c.Pick(4000, 250000)
 	type item struct {
 		src  string
 		want *jv
@@ -589,11 +705,25 @@ func c10Values(c *Cfg, r *Rng) {
 		c.Count("value/" + string(it.want.kind))
 		c.Case("val:"+src, len(it.src) > 5)
 		if err != nil {
-			c.Direct(false, "value-marshal-error", "concrete CUE value does not marshal: "+clip(err.Error(), 300), src)
+			cls := "value-marshal-error"
+			if _, conflict := c10NFCKeys(it.want, true); conflict && strings.Contains(err.Error(), "conflicting values") {
+				cls = "member-name-not-nfc" // two labels that differ only by normalisation were unified
+			}
+			c.Direct(false, cls, "concrete CUE value does not marshal: "+clip(err.Error(), 300), src)
 			return
 		}
 		ok, why := c10Same(out, it.want)
-		c.Direct(ok, "", "concrete CUE value marshals to different data: "+why+" output "+clip(string(out), 200), src)
+		cls0 := ""
+		if !ok {
+			for _, all := range []bool{false, true} {
+				if w2, _ := c10NFCKeys(it.want, all); w2.String() != it.want.String() {
+					if ok2, _ := c10Same(out, w2); ok2 {
+						cls0 = "member-name-not-nfc"
+					}
+				}
+			}
+		}
+		c.Direct(ok, cls0, "concrete CUE value marshals to different data: "+why+" output "+clip(string(out), 200), src)
 		c.Direct(!htmlEscaped(out), "html-escaping", "marshalled value contains HTML escapes: "+clip(string(out), 200), src)
 		if !ok {
 			return
@@ -697,7 +827,7 @@ func c10Production(c *Cfg, r *Rng) {
 		return
 	}
 	// (1) internal/encoding decoder + encoder (the code path of `cue export x.json --out json`)
-	n := c.Pick(1500, 30000)
+	n := c.Pick(1500, 60000)
 	docs := make([][]byte, 0, n)
 	for _, d := range c10FixedDocs {
 		docs = append(docs, []byte(d))
@@ -719,14 +849,15 @@ func c10Production(c *Cfg, r *Rng) {
 		}
 		cls := ""
 		if !ok {
-			cls = f.class(doc, func(neutral []byte) bool {
-				o, e := c10ProdDecode(ctx, neutral)
-				if e != "" {
-					return true
+			cls = f.classify(doc, func(dd []byte) (bool, bool) {
+				o, e := c10ProdDecode(ctx, dd)
+				w, _, _ := c10Analyse(dd)
+				if e == "" && w != nil {
+					if s, _ := c10Same(o, w); s {
+						return true, false
+					}
 				}
-				w, _, _ := c10Analyse(neutral)
-				s, _ := c10Same(o, w)
-				return !s
+				return false, f.keyNFC && c10NFCExplainsOut(dd, e == "", e, o)
 			})
 		}
 		c.Count("production/internal-encoding")
@@ -752,7 +883,7 @@ func c10Production(c *Cfg, r *Rng) {
 			doc = c10GenDoc(rr)
 		}
 		want, f, err := c10Analyse(doc)
-		if err != nil || f.loneSur || f.rawBOM || f.dupDiff || f.outOfRange || !utf8.Valid(doc) {
+		if err != nil || f.loneSur || f.rawBOM || f.dupDiff || f.outOfRange || f.keyNFC || !utf8.Valid(doc) {
 			continue
 		}
 		if want.kind != 'o' && rr.Chance(2, 3) {
@@ -797,7 +928,7 @@ func c10Production(c *Cfg, r *Rng) {
 		rr := NewRng(c.Seed*7919 + uint64(i))
 		doc := c10GenDoc(rr)
 		want, f, err := c10Analyse(doc)
-		if err != nil || f.loneSur || f.rawBOM || f.dupDiff || f.outOfRange || !utf8.Valid(doc) {
+		if err != nil || f.loneSur || f.rawBOM || f.dupDiff || f.outOfRange || f.keyNFC || !utf8.Valid(doc) {
 			return
 		}
 		ctx := get()
